@@ -70,6 +70,24 @@ Proof.
   - intros rst. exact (P rst).
 Qed.
 
+(* any number of successive calls (none of which panicked or ran out of the model's fuel): the reader is again in such a
+   state, nothing an in-bounds slice read at the start was written, every chunk ever handed out still lies inside the chunk
+   its anchor holds, and ALL chunks pumped by all the calls, read in the final memory, are successive pumps of the value-level
+   chunker from the initial state -- hence (C08_pump_spec, by induction) their bytes are exactly the bytes consumed from the stream *)
+Theorem C06_geo_reader_calls (mi ms : nat) (max limit : N) (bs n fuel : nat) h r os hF rF trs :
+  GeoReaderProofs.RState h r ->
+  GeoReaderProofs.gcalls mi ms max limit bs n fuel h r = (os, hF, rF, trs) ->
+  Forall (fun o => o <> GeoReader.GPanic /\ o <> GeoReader.GFuel) os ->
+  GeoReaderProofs.RState hF rF /\ GeoReaderInv.FR h hF /\ Forall (GeoChunker.chunk_ok hF) trs /\
+  GeoReaderProofs.Pumps bs (GeoChunker.abs_st h (GeoReader.rchunker r)) (map (GeoChunker.abs_chunk hF) trs)
+                           (GeoChunker.abs_st hF (GeoReader.rchunker rF)) /\
+  Chunker.remaining (GeoChunker.abs_st h (GeoReader.rchunker r)) =
+    concat (map bytes_of (map (GeoChunker.abs_chunk hF) trs)) ++ Chunker.remaining (GeoChunker.abs_st hF (GeoReader.rchunker rF)).
+Proof.
+  intros S E Hok. destruct (GeoReaderProofs.greader_calls mi ms max limit bs n fuel h r os hF rF trs S E Hok) as (A & B & C & D).
+  split; [exact A|]. split; [exact B|]. split; [exact C|]. split; [exact D|]. exact (GeoReaderProofs.Pumps_bytes bs _ _ _ D).
+Qed.
+
 Theorem C06_geo_reader_init stream :
   GeoReaderProofs.RState [] {| GeoReader.rchunker := {| GeoChunker.gbuf := Geo.as_default; GeoChunker.goffset := 0; GeoChunker.grest := stream |};
                                GeoReader.riov := Geo.empty_iov; GeoReader.rlso := 0 |}.
@@ -103,3 +121,4 @@ Print Assumptions C06_reader_spec_general.
 Print Assumptions C06_valid_record_survives.
 Print Assumptions C06_geo_reader_call.
 Print Assumptions C06_geo_reader_init.
+Print Assumptions C06_geo_reader_calls.
